@@ -22,6 +22,14 @@ def cursor_params(f):
 
 
 def run(ctx, L, tier):
+    rules = decoder_guards(ctx, L)
+    cursor_passing(ctx.cxx, L)
+    exactness(ctx.cxx, L)
+    generated_decode(ctx, L)
+    return rules
+
+
+def decoder_guards(ctx, L):
     cx = ctx.cxx
     rules = ['F6cxx.cursor-write-guarded', 'F6cxx.read-guarded', 'F6cxx.resize-bounded', 'F6cxx.limit-before-resize',
              'F6cxx.no-true-after-failed-callee', 'F6cxx.counted-loop', 'C07.exactness', 'C07.decode-funnel',
@@ -170,10 +178,6 @@ def run(ctx, L, tier):
     L.floor('F6cxx.read-guarded', n_reads, 4)
     L.floor('F6cxx.resize-bounded', n_resize, 3)
     L.floor('F6cxx.counted-loop', n_loops, 4)
-
-    cursor_passing(cx, L)
-    exactness(cx, L)
-    generated_decode(ctx, L)
     return rules
 
 
